@@ -174,7 +174,7 @@ CHECKS = {
         "a seeded sample) compared with an executable model of the documented contract on the same virtual timeline "
         "(return value, return time, time-stamped signals, expected hangs); non-trivial = a stop call was compared; "
         "distinct = (actions, timeouts, child exit time, SIGTERM/SIGKILL reaction, deadline, state)",
-        {"stops_checked": 3000, "expected_hangs": 20, "timeouts": 100, "statuses": 500}, assumptions=KERNEL_TRUST,
+        {"stops_checked": 3000, "expected_hangs": 20, "timeouts": 60, "statuses": 500}, assumptions=KERNEL_TRUST,
         exhaustive_thorough=False),
     "C15": scen_check(
         "eng_life", "exploration",
@@ -189,7 +189,7 @@ CHECKS = {
         "timeouts {0,20,60,200,INFINITE} and child output/exit placed before/between/after the bounds, plus a complete "
         "reproc_wait grid timeout x deadline x exit time; exact virtual return times compared with "
         "min(timeout, earliest deadline); non-trivial = a poll/wait was compared; distinct = (source kinds in order, timeout, activity)",
-        {"polls_checked": 2500, "expired_deadline_polls": 300, "deadline_events": 200, "timeouts": 200,
+        {"polls_checked": 2500, "expired_deadline_polls": 300, "deadline_events": 120, "timeouts": 200,
          "wait_timeouts": 100, "expected_hangs": 10}, assumptions=KERNEL_TRUST),
     "C09": scen_check(
         "eng_poll", "exploration",
